@@ -142,11 +142,22 @@ def lean_sources_for(module_file):
             todo.append(os.path.join(LEAN, m.replace('.', '/') + '.lean'))
     return sorted(seen)
 
+GEN_TRANSLATORS = {'TupleImpls': 'translate_tuples', 'LockSites': 'translate_locks', 'Mirrors': 'translate_mirrors',
+                   'Counter': 'translate_counter', 'Control': 'translate_control'}
+
 def lean_obligations(prop, expected, report, thorough=False):
     """Build Unimock.Props.<prop>, audit axioms of every expected theorem, grep forbidden constructs.
     Returns True iff every obligation is discharged."""
     module = f"Unimock.Props.{prop}"
     prop_file = os.path.join(LEAN, 'Unimock', 'Props', f"{prop}.lean")
+    # every Generated/*.lean file the theorems depend on is re-translated from /repo's current source first
+    for f in lean_sources_for(prop_file):
+        t = GEN_TRANSLATORS.get(os.path.basename(f)[:-5]) if os.sep + 'Generated' + os.sep in f else None
+        if t:
+            tok, msg = run_translator(t)
+            note = f"tools/{t}.py (re-run from /repo before the build): " + (msg.split('\n')[-1] if msg else 'no output')
+            if hasattr(report, 'assumptions') and note not in report.assumptions:
+                report.assumptions.append(note)
     ok, log = build_lean([module])
     names, _ = theorem_names(prop_file) if os.path.exists(prop_file) else ([], '')
     problems = []
